@@ -189,36 +189,51 @@ def run(prop, tier):
                                 cand.append((e.mcv, mk_event(si, e, [vals[0] + 5, 1])))
                             else:
                                 cand.append((e.mcv, mk_event(si, e, vals)))
-                uncovered = set(by_mcv)
-                frontier = [[]]
-                seen_hash = set()
+                # thread states in which the model's events are legal (DESIGN.md A.5): nOS-V and Nanos6 events only need an
+                # active thread, so the search is repeated from a cooling and from a warming thread
+                ctxs = [("running", [])]
+                if model in ("nosv", "nanos6"):
+                    ctxs += [("cooling", [Ev(A, "OHc")]), ("warming", [Ev(A, "OHp"), Ev(A, "OHw")])]
                 depth = 3
                 nctx = 0
-                for lvl in range(depth):
-                    if not uncovered or not frontier:
-                        break
-                    pr = [ev for (m_, ev) in cand]
-                    res = pool.expand_many([(prefix + h, pr) for h in frontier])
-                    nxt = []
-                    for h, (hres, pres) in zip(frontier, res):
-                        if not hres.get("ok"):
-                            continue
-                        for (m_, ev), r in zip(cand, pres):
-                            nctx += 1
-                            if r.crashed:
-                                ctx.violation("model %s: listed event %s crashes the emulator after %s: %s" % (model, ev.short(), [e.short() for e in h], r.msg),
-                                              {"engine": "E3", "model": model, "history": [e.line() for e in prefix + h], "probe": ev.line()}, {"kind": "crash", "mcv": m_})
+                nstates = 0
+                for (cname, cpre) in ctxs:
+                    uncovered = set(by_mcv)
+                    if cname != "running":
+                        # thread life-cycle events of the model itself would leave the state under test
+                        uncovered -= set(m_ for m_ in by_mcv if m_[:2] == "OH")
+                    frontier = [[]]
+                    seen_hash = set()
+                    for lvl in range(depth):
+                        if not uncovered or not frontier:
+                            break
+                        pr = [ev for (m_, ev) in cand]
+                        res = pool.expand_many([(prefix + cpre + h, pr) for h in frontier])
+                        nxt = []
+                        for h, (hres, pres) in zip(frontier, res):
+                            if not hres.get("ok"):
+                                if not h:
+                                    raise InfraError("context prefix %s refused for model %s: %r" % (cname, model, hres))
                                 continue
-                            if r.ok:
-                                uncovered.discard(m_)
-                                if r.hash not in seen_hash and len(nxt) < 400:
-                                    seen_hash.add(r.hash)
-                                    nxt.append(h + [ev])
-                    frontier = nxt
-                ctx.add(evaluations=nctx, transitions=nctx, states=len(seen_hash))
-                for m_ in sorted(uncovered):
-                    ctx.violation("model %s: listed event %s (%s) is not accepted in any context of <= %d listed events" % (model, m_, by_mcv[m_].desc, depth),
-                                  {"engine": "E3", "model": model, "mcv": m_, "prefix": [e.line() for e in prefix]}, {"kind": "listed-never-accepted", "mcv": m_})
+                            for (m_, ev), r in zip(cand, pres):
+                                nctx += 1
+                                if r.crashed:
+                                    ctx.violation("model %s: listed event %s crashes the emulator after %s: %s" % (model, ev.short(), [e.short() for e in cpre + h], r.msg),
+                                                  {"engine": "E3", "model": model, "history": [e.line() for e in prefix + cpre + h], "probe": ev.line()}, {"kind": "crash", "mcv": m_})
+                                    continue
+                                if r.ok:
+                                    uncovered.discard(m_)
+                                    if r.hash not in seen_hash and len(nxt) < 400:
+                                        seen_hash.add(r.hash)
+                                        nxt.append(h + [ev])
+                        frontier = nxt
+                    nstates += len(seen_hash)
+                    for m_ in sorted(uncovered):
+                        ctx.violation("model %s: listed event %s (%s) is not accepted in any context of <= %d listed events on a %s thread" % (
+                            model, m_, by_mcv[m_].desc, depth, cname),
+                            {"engine": "E3", "model": model, "mcv": m_, "thread_state": cname, "prefix": [e.line() for e in prefix + cpre]},
+                            {"kind": "listed-never-accepted", "mcv": m_, "thread_state": cname})
+                ctx.add(evaluations=nctx, transitions=nctx, states=nstates)
                 ctx.part("model-" + model, listed=len(by_mcv), unlisted_codes_probed=k, context_probes=nctx, legacy=sorted(legacy & set(ch + c + v for c in PRINTABLE for v in PRINTABLE)))
             finally:
                 pool.close()
@@ -262,7 +277,7 @@ def run(prop, tier):
         ctx.sample({"ovnidump": "OHx(i32 cpu, i32 tid, u64 tag) with values -1 -> 'begins the execution on CPU -1 created from -1 with tag 0xffffffffffffffff'"})
         ctx.cov["rule"] = ("for each of the 8 models: all 94x94 printable (category,value) codes not listed by ovnievents, without payload and with a 16-byte payload, "
                            "probed on a running thread with the model enabled (must be refused, except OB?/OU? and the frozen legacy list); every listed event searched "
-                           "for an accepting context by BFS over sequences of <= 3 listed events with arguments from {existing id, new id, 0}; every listed event x "
+                           "for an accepting context (on a running thread; for nOS-V and Nanos6 also on a cooling and on a warming thread) by BFS over sequences of <= 3 listed events with arguments from {existing id, new id, 0}; every listed event x "
                            "5 argument values decoded by the real ovnidump and compared with an independent formatter; ovnievents vs documentation")
         ctx.cov["distinct_nontrivial"] = nunlisted
         ctx.cov["unlisted_codes_probed"] = nunlisted
